@@ -186,6 +186,18 @@ class ISD(model.Document):
 
   def _region_always_has_background(region: typing.Type[model.Region]) -> bool:
 
+    # the background may become visible through animation
+
+    for anim_step in region.iter_animation_steps():
+      if anim_step.style_property in (
+        styles.StyleProperties.Opacity,
+        styles.StyleProperties.Display,
+        styles.StyleProperties.Visibility,
+        styles.StyleProperties.ShowBackground,
+        styles.StyleProperties.BackgroundColor
+      ):
+        return True
+
     if region.get_style(styles.StyleProperties.Opacity) == 0:
       return False
 
@@ -280,6 +292,13 @@ class ISD(model.Document):
 
       for region in cached_doc.iter_regions():
         compute_sig_times(interval_cache, content_interval, s_times, region, 0, None)
+
+      # the default region is always active and shows the initial background color, if any
+
+      if len(doc_regions) == 0:
+        initial_bg_color = cached_doc.get_initial_value(styles.StyleProperties.BackgroundColor)
+        if initial_bg_color is not None and initial_bg_color.components[3] != 0:
+          content_interval = [0, None]
 
       # add significant times for body and its descendents
 
